@@ -11,6 +11,7 @@ import (
 	"runtime/debug"
 	"sort"
 	"strings"
+	"sync"
 
 	"github.com/xuperchain/xupercore/bcs/ledger/xledger/ledger"
 	pb "github.com/xuperchain/xupercore/bcs/ledger/xledger/xldgpb"
@@ -172,7 +173,42 @@ func (w *world) step(rng *rand.Rand) (string, []problem) {
 	case r < 50: // grow
 		p := pickParent()
 		b := w.makeBlock(rng, p, "")
-		st := w.n.Confirm(b)
+		var st ledger.ConfirmStatus
+		if rng.Intn(5) == 0 {
+			// the same block delivered by three peers at the same moment: the ledger serialises
+			// ConfirmBlock, so this is some sequence of one submission and two duplicates
+			var wg sync.WaitGroup
+			sts := make([]ledger.ConfirmStatus, 3)
+			start := make(chan struct{})
+			for i := range sts {
+				wg.Add(1)
+				go func(i int) {
+					defer wg.Done()
+					<-start
+					sts[i] = w.n.Confirm(b)
+				}(i)
+			}
+			close(start)
+			wg.Wait()
+			okN := 0
+			for _, x := range sts {
+				if x.Succ {
+					okN++
+					st = x
+				}
+			}
+			w.stats["concurrent-delivery"]++
+			w.logf("confirm-x3(%s<-%s)=%d accepted", short(string(b.Blockid)), short(p), okN)
+			if okN > 1 {
+				ps = append(ps, problem{"concurrent-duplicates|accepted-more-than-once", fmt.Sprintf("%d of 3 simultaneous deliveries of one block were confirmed", okN)})
+				return "confirm", ps
+			}
+			if okN == 0 {
+				st = sts[0]
+			}
+		} else {
+			st = w.n.Confirm(b)
+		}
 		w.logf("confirm(%s<-%s)=%v", short(string(b.Blockid)), short(p), st.Succ)
 		if !st.Succ {
 			ps = append(ps, problem{"valid-block-refused", fmt.Sprintf("block on stored parent refused: %v %v", st.Error, w.n.Log.Tail(3))})
